@@ -459,6 +459,17 @@ EachOptionItsOwnField == Mode = "cases" =>
         LET d == DOMAIN Diff(Expect(Without(c, o), form), Expect(c, form)) IN
         IF o.name = "cache" THEN d \subseteq {"cache"}
         ELSE IF IsDefault(c, o) THEN d = {} ELSE d = OwnFields(o)
+\* A destination string of a [[route]] section is the address followed by blank-separated option=value words
+\* (docs/config.md); how many blanks separate the words -- options lined up in columns -- is layout, not meaning
+\* (tabs are not claimed: the documentation shows blanks only, and the relay's tokenizer does not take a tab for one).  (In the command forms two blanks are the separator between destinations: there the layout is fixed.)
+\* Named wrong reading "double_blank_ends_toml_dest": what follows a double blank in a section's destination string
+\* is dropped, as if it were the command syntax.
+DestLayouts == {"single", "double", "mixed"}
+NoDestOpts(cc) == [cc EXCEPT !.opts = {o \in cc.opts : o.scope = "r"}]
+ExpectL(cc, form, layout) ==
+    IF Deviation = "double_blank_ends_toml_dest" /\ form = "toml" /\ cc.kind = "route" /\ layout \in {"double", "mixed"}
+    THEN Expect(NoDestOpts(cc), form) ELSE Expect(cc, form)
+LayoutIrrelevant == Mode = "cases" => \A layout \in DestLayouts : ExpectL(c, "toml", layout) = Expect(c, "toml")
 \* the two syntaxes mean the same entry, except for the documented cache default
 SyntaxesAgree == Mode = "cases" =>
     DOMAIN Diff(Expect(c, "toml"), Expect(c, "cmd")) \subseteq (IF Has(c, "r", "cache") THEN {} ELSE {"cache"})
